@@ -247,6 +247,12 @@ def run(ctx):
     ctx.coq_cases("c04", GUARD_HDR, cases, shard=150, label="default_mode_tree")
     replay_witnesses(ctx)
 
+    # extension: class instances (attributes) inside the same models - beyond the property's stated domain,
+    # recorded in the evidence file, never a violation (core.Ctx.extension; coq/theories/Obj)
+    with ctx.extension("Obj"):
+        from harness import objcommon as O
+        O.stream_c04(ctx)
+
 
 def replay(ctx, data):
     case = data.get("case", {})
